@@ -222,6 +222,55 @@ def run_names(case):
     return result(n, list(oc), fails) | {'ids': {k: list(v) for k, v in ids.items()}}
 
 
+BOOKS = ['b.xlsx', 'B2.xlsx', '2024.xlsx', '2024 budget.xlsx', '1a.xlsx', 'my book.xlsx', 'a-b.xlsx', 'Ünï.xlsx', 'x.y.xlsx', '7up.xlsm', 'a_b.xlsx']
+DIRS = ['', 'sub', 'sub/deep', '2024']
+
+
+def run_books(case):
+    """workbook qualification: file names (digit-first, blanks, dots) x directories."""
+    _, sheet = case
+    fails, n, ids = [], 0, {}
+    for f in BOOKS:
+        for d in DIRS:
+            pre = (d + '/') if d else ''
+            qs = sheet.replace("'", "''")
+            forms = {
+                'quoted': nm("'%s[%s]%s'!A1" % (pre, f, qs)),
+                'quoted-lower': nm("'%s[%s]%s'!$a$1" % (pre, f, qs.lower())),
+                'context': nm('A1', {'sheet': sheet, 'filename': f, 'directory': d}),
+                'context-slash': nm('A1', {'sheet': sheet, 'filename': f, 'directory': pre}),
+                'range-1': nm("'%s[%s]%s'!A1:A1" % (pre, f, qs)),
+            }
+            n += len(forms)
+            ref = forms['quoted']
+            for k, v in forms.items():
+                if v != ref:
+                    fails.append(Fail('book-spelling', got=v, exp=ref, book=f, dir=d, spelling=k, digit=f[0].isdigit()))
+            key = (d, f, sheet.upper())
+            if ref in ids and ids[ref] != key:
+                fails.append(Fail('book-collision', got=ref, exp='distinct ids for %s and %s' % (key, ids[ref]), book=f, dir=d, spelling='quoted', digit=f[0].isdigit()))
+            ids.setdefault(ref, key)
+            if not ref.startswith(('ESC', 'TokenError', 'PARTIAL')):
+                n += 2
+                back = nm(ref)
+                if back != ref:
+                    fails.append(Fail('book-readback', got=back, exp=ref, book=f, dir=d, spelling='id', digit=f[0].isdigit()))
+                try:
+                    from formulas.ranges import Ranges
+                    g = Ranges().push(ref).ranges[0]
+                    if g['name'] != ref or (g.get('filename'), g.get('sheet', '').replace("''", "'").upper()) != (f, sheet.upper()):
+                        fails.append(Fail('book-readback', got=[g['name'], g.get('filename'), g.get('directory')], exp=[ref, f, d], book=f, dir=d, spelling='parts', digit=f[0].isdigit()))
+                except Exception as e:
+                    fails.append(Fail('book-readback', got='ESC:' + type(e).__name__, exp=ref, book=f, dir=d, spelling='push', digit=f[0].isdigit()))
+            else:
+                fails.append(Fail('book-spelling', got=ref, exp='an id', book=f, dir=d, spelling='quoted', digit=f[0].isdigit()))
+    # numeric external-link ids are a different thing and must stay distinct from file names
+    link = nm('[7]%s!A1' % sheet) if sheet.isalnum() else None
+    if link in ids:
+        fails.append(Fail('book-collision', got=link, exp='link id distinct from file ids', book='[7]', dir='', spelling='link', digit=True))
+    return result(n, ['books'], fails)
+
+
 def run_defined(case):
     _, name = case
     fails = []
@@ -273,7 +322,7 @@ def run_fast(case):
 
 
 def run_case(case):
-    return {'rect': run_rect, 'cols': run_cols, 'names': run_names, 'defined': run_defined, 'fast': run_fast}[case[0]](case)
+    return {'rect': run_rect, 'cols': run_cols, 'names': run_names, 'defined': run_defined, 'fast': run_fast, 'books': run_books}[case[0]](case)
 
 
 def run(ctx):
@@ -298,4 +347,5 @@ def run(ctx):
     collect('names', (['names', f, maxlen] for f in ALPHA if f not in (' ', "'")), 1)
     ctx.explore(run_case, (['defined', nme] for nme in ['rate', 'Rate', 'RATE', 'my_name', 'My.Name', 'x_1', 'näme', 'TaxRate2024x']), chunksize=1, label='defined_names')
     ctx.explore(run_case, (['fast', ctx.tier, c] for c in cols), chunksize=1, label='fast_paths')
+    ctx.explore(run_case, (['books', sh] for sh in ['S', 'My Data', "It's", '1st']), chunksize=1, label='workbook_names')
     return {'distinct_ids': len(allids)}
